@@ -203,6 +203,9 @@ func (w *c11World) line(c *Ctx, in string) {
 				packager.Type.Listener.Type, packager.Type.Listener.Add, parts[2], handlers.AGENT_PIVOT_SMB)))
 		}
 		w.obs(c, in, ms(40))
+	case "lnotify": // lnotify <listener>: the listener reports its status (what a service listener does): another add event is recorded
+		w.ts.ListenerStartNotify(map[string]any{"Name": parts[1], "Protocol": "x", "Host": "h", "Port": "1", "Error": "", "Status": "Online", "Info": "i"})
+		w.obs(c, in, ms(25))
 	case "lremove": // lremove <name> <listener>
 		if wc := w.conns[parts[1]]; wc != nil {
 			wc.c.WriteMessage(websocket.TextMessage, []byte(fmt.Sprintf(`{"Head":{"Event":%d,"User":"x","Time":"t"},"Body":{"SubEvent":%d,"Info":{"Name":%q}}}`,
@@ -363,7 +366,14 @@ func runC11(c *Ctx) {
 				listeners = append(listeners, n)
 				c.Count("op.ladd")
 			case "lremove":
-				w.line(c, fmt.Sprintf("lremove %s %s", gen.Pick(r, authed), gen.Pick(r, listeners)))
+				ln := gen.Pick(r, listeners)
+				if r.Chance(1, 2) { // status reports of a listener that exists: more add events of it, back to back
+					for k := 0; k < 1+r.Intn(2); k++ {
+						w.line(c, "lnotify "+ln)
+						c.Count("op.lnotify")
+					}
+				}
+				w.line(c, fmt.Sprintf("lremove %s %s", gen.Pick(r, authed), ln))
 				c.Count("op.lremove")
 			case "register":
 				nreg++
